@@ -7,6 +7,7 @@ From Coq Require Import List NArith ZArith Bool String.
 From PMS Require Import Base.PyStr Base.PyInt Base.Exn Model.ConfigSyntax Gen.Signatures.
 Import ListNotations.
 Open Scope N_scope.
+Open Scope list_scope.
 
 (* ---- dotted numeric strings: [0-9]+(\.[0-9]+)*  (ASCII digits) *)
 Definition dot : N := 46.
@@ -61,7 +62,7 @@ Definition py_str (v : val) : pstr :=
   | VBool true => s2p "True"
   | VBool false => s2p "False"
   | VFloat r => r
-  | VObj t => s2p "<" ++ t ++ s2p ">"
+  | VObj t => app (s2p "<") (app t (s2p ">"))
   | VRef _ => s2p "<object>"
   | VPair _ _ => s2p "(,)"
   end.
